@@ -229,6 +229,19 @@ PROPS = {
         open=['the global AtomicUsize counter itself is trusted (fetch_add)'],
         macro=True,
     ),
+    "C11": dict(
+        title="project (current value of projected variables)",
+        props_module="PvModel.Props.C11",
+        rule="a prefix of bindings / disequalities (1 in 5 with member or conde, so that several states reach the goal), then project |x..| { body } "
+             "whose body tests the projected values non-relationally (isnum, isground: syntactic, no walk) and relationally (q == x, q == [x, 0]), "
+             "then more goals that bind variables afterwards; the prefix alone is run in raw mode to count the reaching states and read the walked "
+             "values; <=1 reaching state: answers must equal the program with the body instantiated by those values (and go through the model); "
+             ">=2 reaching states: the recorded panic site (known finding D16) or, failing that, the same reference; non-trivial = an answer; "
+             "distinct = distinct case lines",
+        trusted=SEARCH_TRUST + ["the model has the intended value semantics (a dyn goal); the shared projection cell and its unsafe overwrite are not modelled: cases in the known finding's region are not sent to the model"],
+        assumptions=[],
+        open=["C11_full for the implementation (every reaching state, no panic) is false on the pinned tree (D16); C11_once_partial is what the correspondence checks"],
+    ),
     "C01": dict(
         title="unification (State::unify vs unifyF)",
         props_module="PvModel.Props.C01",
